@@ -37,10 +37,10 @@ File-system side (`Hertz.Model.FsPath`, model of the path pipeline of `pkg/app/f
 * `resolution_stays_below`, `serve_inside_root`: the model of the kernel's path resolution never leaves the directory
   it starts in when no component is `..`; hence with a stock rewriter (or none) every file or generated listing
   that is served lies inside `FS.Root`, whatever the tree, for plain index names;
-* `custom_rewrite_inside_fails_at` / `custom_rewrite_inside_partial`: the same statement for an arbitrary
-  application-supplied `PathRewrite` that respects the documented contract ("no `/../` substring") is FALSE of the
-  code as it stands (known finding `fs-rewrite-trailing-dotdot`: the result `/..` passes the guard and opens the
-  parent of the root); it holds when the rewriter's result, after `stripTrailingSlashes`, is empty or contained.
+* `custom_rewrite_inside`: the same for an ARBITRARY application-supplied `PathRewrite`: whatever bytes it returns,
+  the handler answers 400/500 or serves from inside the root (the `/../` guard, the trailing-`/..` test and the
+  leading-slash test of `handleRequest` together exclude every `..` component).  Before repo commit bd67071 this was
+  false (`/..` and `x` escaped; former known findings); the witnesses are kept as regression examples.
 
 TODO-OPEN: nothing of the two statements that used to be listed here remains open.  What these theorems
 do not cover (unchanged): they are about the Lean models; that `normalizePath`/`cleanPath` are the Go
@@ -115,9 +115,11 @@ theorem model_matches_gen_C07 :
     Gen.FsPath.slashesStripper = ["return stripLeadingSlashes(ctx.Path(), slashesCount)"] ∧
     Gen.FsPath.vhostRewriter.getLast? = some "return ctx.Path()" ∧
     "ctx.URI().SetPathBytes(b.B)" ∈ Gen.FsPath.vhostRewriter ∧
-    Gen.FsPath.handleRequestHead.length = 13 :=
+    Gen.FsPath.handleRequestHead.length = 16 ∧
+    "if bytes.HasSuffix(path, bytestr.StrSlashDotDotSlash[:3]) || (len(path) > 0 && path[0] != '/')" ∈ Gen.FsPath.handleRequestHead :=
   ⟨model_matches_gen.1, model_matches_gen.2.2.1, by rw [model_matches_gen.2.1]; rfl,
-   by rw [model_matches_gen.2.1]; decide, by rw [model_matches_gen.2.2.2.2.2.1]; rfl⟩
+   by rw [model_matches_gen.2.1]; decide, by rw [model_matches_gen.2.2.2.2.2.1]; rfl,
+   by rw [model_matches_gen.2.2.2.2.2.1]; decide⟩
 
 /-- a tree for the sanity examples: base `{i, x/ {i}, r/ {i, f, x/ {f}, ../ (a directory literally named "..")… }}`;
 names are single bytes: `r` = 114 is the root, `i` = 105 the index file, `x` = 120, `f` = 102 -/
@@ -195,40 +197,42 @@ example : (serve tinyTree tinyCfg (.vhost 0) (Uri.parse [46, 46] [47])).map (·.
     PlainName tinyCfg.root ∧ (∀ n ∈ tinyCfg.indexNames, ∀ s ∈ Spec.splitSlash n, s ≠ Spec.dotdot) := by
   refine ⟨by decide +kernel, by decide +kernel, by unfold PlainName tinyCfg; decide, by decide⟩
 
-/-- The same containment for an ARBITRARY application-supplied `PathRewrite` that keeps the documented contract
-("the returned path must not contain '/../' substrings") is false of the code as it stands: the result `/..` passes
-the handler's guard, `os.Open(root + "/..")` opens the directory above the root and its index file is served
-(known finding `fs-rewrite-trailing-dotdot`; replayed against the implementation by `fsguard b 2f2e2e`). -/
-theorem custom_rewrite_inside_fails_at :
-    ¬ (∀ (raw : Bytes) (s : Served) (u' : URI), ¬ DDS <:+: raw →
-        serve tinyTree tinyCfg (.custom raw) {} = some (s, u') → Served.inside tinyCfg.root s) := by
-  intro h
-  have := h [47, 46, 46] (.file [[105]]) {} (by decide) (by decide +kernel)
-  revert this
-  show ¬ ([[105]] : List Bytes).head? = some [114]
-  decide
-
-/-- … and it holds when the rewriter's result is, after `stripTrailingSlashes`, empty or contained. -/
-theorem custom_rewrite_inside_partial (t : Tree) (cfg : FsCfg) (hR : PlainName cfg.root)
+/-- **Whatever an application-supplied `PathRewrite` returns**, the handler serves only from inside `FS.Root` or
+answers 400/500: for every byte string `raw`, every tree, every configuration with a plain root name and index names
+without a `..` component.  (False before repo commit bd67071: a result ending in `/..` passed the `/../` guard, which runs
+after `stripTrailingSlashes`, and a result without leading slash was glued to the root's name; the handler now refuses
+both, and the former witnesses are the regression examples below.) -/
+theorem custom_rewrite_inside (t : Tree) (cfg : FsCfg) (hR : PlainName cfg.root)
     (hn : ∀ n ∈ cfg.indexNames, ∀ s ∈ Spec.splitSlash n, s ≠ Spec.dotdot)
-    (raw : Bytes) (hraw : Spec.servable (stripTrailingSlashes raw) = true) (u u' : URI) (s : Served)
+    (raw : Bytes) (u u' : URI) (s : Served)
     (h : serve t cfg (.custom raw) u = some (s, u')) : Served.inside cfg.root s := by
   by_cases h1 : (stripTrailingSlashes raw).contains 0 = true
   · simp only [serve, decision, rewrite, Option.map_some, h1, if_true, Option.some.injEq, Prod.mk.injEq] at h
     rw [← h.1]; trivial
-  · by_cases h2 : (Rewriter.custom raw != Rewriter.none &&
-        containsSub Hertz.Gen.Str.strSlashDotDotSlash (stripTrailingSlashes raw)) = true
-    · simp only [serve, decision, rewrite, Option.map_some, h1, h2, if_true, if_false, Bool.false_eq_true,
+  · cases h2 : refused (stripTrailingSlashes raw) with
+    | true =>
+      have h2' : (Rewriter.custom raw != Rewriter.none && refused (stripTrailingSlashes raw)) = true := by
+        rw [h2]; rfl
+      simp only [serve, decision, rewrite, Option.map_some, h1, h2', if_true, if_false, Bool.false_eq_true,
         Option.some.injEq, Prod.mk.injEq] at h
       rw [← h.1]; trivial
-    · simp only [serve, decision, rewrite, Option.map_some, h1, h2, if_false, Bool.false_eq_true,
+    | false =>
+      have h2' : (Rewriter.custom raw != Rewriter.none && refused (stripTrailingSlashes raw)) = false := by
+        rw [h2]; rfl
+      simp only [serve, decision, rewrite, Option.map_some, h1, h2', if_false, Bool.false_eq_true,
         Option.some.injEq, Prod.mk.injEq] at h
       rw [← h.1]
-      exact openServe_inside t cfg hR hn hraw
+      exact openServe_inside_safe t cfg hR hn (safe_of_unrefused hR.1 h2)
 
-/-- sanity for `custom_rewrite_inside_partial`: a rewriter returning `/x//` serves the listing of `r/x`. -/
-example : Spec.servable (stripTrailingSlashes [47, 120, 47, 47]) = true ∧
-    (serve tinyTree tinyCfg (.custom [47, 120, 47, 47]) {}).map (·.1) = some (.listing [[114], [120]]) := by
+/-- regression examples for `custom_rewrite_inside` (the witnesses of the former known findings
+`fs-rewrite-trailing-dotdot` and `fs-rewrite-no-leading-slash`): a rewriter returning `/..`, `/../`, `//..` or `x` is
+answered 500; one returning `/x//` still gets the listing of `r/x`, the empty result the root's index file. -/
+example : (serve tinyTree tinyCfg (.custom [47, 46, 46]) {}).map (·.1) = some (.status 500) ∧
+    (serve tinyTree tinyCfg (.custom [47, 46, 46, 47]) {}).map (·.1) = some (.status 500) ∧
+    (serve tinyTree tinyCfg (.custom [47, 47, 46, 46]) {}).map (·.1) = some (.status 500) ∧
+    (serve tinyTree tinyCfg (.custom [120]) {}).map (·.1) = some (.status 500) ∧
+    (serve tinyTree tinyCfg (.custom [47, 120, 47, 47]) {}).map (·.1) = some (.listing [[114], [120]]) ∧
+    (serve tinyTree tinyCfg (.custom []) {}).map (·.1) = some (.file [[114], [105]]) := by
   decide +kernel
 
 end Hertz.Props.C07
